@@ -134,7 +134,14 @@ pub fn phase(sim: &mut Sim, rng: &mut Rng, rep: &mut Report, only_kind: Option<u
 	sim.w.step += 1;
 	sim.w.note(format!("DEADLINE scenario kind {} amt {} final cltv delta {}", kind, amt, final_cltv));
 	let opts = if stale_forwarder { SendOpts { intercept: true, class: "intercepted", ..Default::default() } } else { SendOpts { class: "deadline-forward", ..Default::default() } };
-	let pi = match sim.w.send_payment_ex(0, &[(vec![c01, c12], amt)], final_cltv, opts, None) {
+	// in a third of the on-chain settlements the payment has two parts over the same two channels: two HTLCs with
+	// one payment hash on each, both claimed on chain by node 2 (usually in one block), both to be claimed upstream
+	let two_parts = onchain_claim && !stale_forwarder && amt >= 3_000_000 && rng.chance(1, 3);
+	let parts: Vec<(Vec<usize>, u64)> = if two_parts { vec![(vec![c01, c12], amt / 2), (vec![c01, c12], amt - amt / 2)] } else { vec![(vec![c01, c12], amt)] };
+	if two_parts {
+		rep.count("c08_scenarios_with_two_parts_over_the_same_channels");
+	}
+	let pi = match sim.w.send_payment_ex(0, &parts, final_cltv, opts, None) {
 		Ok(p) => p,
 		Err(_) => {
 			sim.dispatch(rep);
